@@ -232,8 +232,25 @@ fn gen_snap(rng: &mut Rng, centre: f64, steer_free: bool) -> String {
     cand_str(o, u * u, d, p, l)
 }
 
-fn gen_ctrl_case(rng: &mut Rng, _idx: u64, _run: &Run) -> Vec<String> {
+fn gen_ctrl_case(rng: &mut Rng, idx: u64, _run: &Run) -> Vec<String> {
+    if idx == 0 {
+        // witness of seeded change C37-b: B is ahead (t=130) when A's late message (t=120, NEW value: other delay
+        // and leap) is handled; A's new measurement must be the one held, and the next update must use it
+        let one = f64hex(1.0);
+        return vec![
+            format!("cfg min=1 ws={} wd={} mu={}", one, one, f64hex(0.25)),
+            "add id=1".into(),
+            "add id=2".into(),
+            "usable id=1 b=1".into(),
+            "usable id=2 b=1".into(),
+            format!("msg id=1 t=110 snap={}", cand_str(0.0, 4.0 * G * G, G, false, 'n')),
+            format!("msg id=2 t=130 snap={}", cand_str(0.0, 4.0 * G * G, G, false, 'n')),
+            format!("msg id=1 t=120 snap={}", cand_str(G, 9.0 * G * G, 2.0 * G, false, '5')),
+            format!("msg id=2 t=140 snap={}", cand_str(0.0, 4.0 * G * G, G, false, '5')),
+        ];
+    }
     let mut ops = vec![gen_cfg(rng)];
+    let mut used_stamps: Vec<u64> = vec![];
     let n_ids = rng.usize(2, 6) as u64;
     let centre = *rng.pick(&[0.0, 0.0, 0.5, -0.25, 2.0 * G]);
     let mut t = 100u64;
@@ -256,11 +273,27 @@ fn gen_ctrl_case(rng: &mut Rng, _idx: u64, _run: &Run) -> Vec<String> {
             ops.push(format!("drop id={}", id));
             live.retain(|x| *x != id);
         } else {
-            t += rng.usize(1, 64) as u64;
+            // time stamps are distinct; mostly increasing, but a quarter of the messages is delivered LATE: its
+            // stamp lies before stamps already handled (other sources are then ahead of it)
+            let mut stamp = 0;
+            if t > 110 && rng.chance(1, 4) {
+                for _ in 0..8 {
+                    let cand = t - rng.usize(1, 40).min((t - 101) as usize) as u64;
+                    if cand > 100 && !used_stamps.contains(&cand) {
+                        stamp = cand;
+                        break;
+                    }
+                }
+            }
+            if stamp == 0 {
+                t += rng.usize(1, 64) as u64;
+                stamp = t;
+            }
+            used_stamps.push(stamp);
             // after a step the real snapshots are shifted; new messages are generated around the shifted centre
             // only approximately (the model reads the exact values back), so both agreement and disagreement occur
             let c = if rng.chance(1, 3) { 0.0 } else { centre };
-            ops.push(format!("msg id={} t={} snap={}", id, t, gen_snap(rng, c, false)));
+            ops.push(format!("msg id={} t={} snap={}", id, stamp, gen_snap(rng, c, false)));
         }
     }
     ops
@@ -376,6 +409,27 @@ fn exec_ctrl_case(ops: &[String], run: &mut Run) {
                 }
                 let upd = c.source_message(ClockId(id), KalmanSourceMessage { inner: snap });
                 obs_calls = clock.take();
+                // the message's measurement must be the one the controller holds for this source afterwards,
+                // whatever the other sources' time stamps (identity: last_update, delay bits, leap)
+                if registered {
+                    let held = c.sources.get(&ClockId(id)).and_then(|e| e.0);
+                    let ok = held.map_or(false, |h| {
+                        h.last_update == snap.last_update
+                            && h.delay.to_bits() == snap.delay.to_bits()
+                            && h.leap_indicator == snap.leap_indicator
+                    });
+                    if !ok {
+                        run.oracle_fail(
+                            "latest_measurement_kept",
+                            &format!("id={} t={}", id, t),
+                            &format!("after handling the measurement stamped {} of source {}, the controller holds {:?}", t, id,
+                                held.map(|h| (h.last_update, h.delay, h.leap_indicator))),
+                        );
+                    }
+                    if view.values().any(|s| s.state.time > ts(t)) {
+                        run.hit("msg-while-other-ahead");
+                    }
+                }
                 let steer: Vec<String> = obs_calls.iter().filter(|s| s.starts_with("step") || s.starts_with("freq")).cloned().collect();
                 final_op = format!(
                     "{} vals={} steer={}",
@@ -455,12 +509,20 @@ fn exec_ctrl_case(ops: &[String], run: &mut Run) {
         if cand_ids != want {
             run.oracle_fail("candidates_registered_usable", "", &format!("controller candidates {:?}, property says {:?}", cand_ids, want));
         }
+        let mut held: Vec<(u64, u64)> = c
+            .sources
+            .iter()
+            .filter_map(|(k, v)| v.0.map(|s| (k.0, u64::from_be_bytes(s.last_update.to_bits()) >> 32)))
+            .collect();
+        held.sort();
+        let held: Vec<String> = held.iter().map(|(k, t)| format!("{}:{}", k, t)).collect();
         let obs = format!(
-            "calls={} used={} leap={} cand={}",
+            "calls={} used={} leap={} cand={} held={}",
             common::comma_list(&obs_calls),
             obs_used,
             leap_char(c.timedata.leap_indicator),
-            common::comma_list(&cand_ids)
+            common::comma_list(&cand_ids),
+            common::comma_list(&held)
         );
         run.end_op_as(&final_op, &obs);
     }
